@@ -172,5 +172,6 @@ BUILTIN_EXC = {
     'StopIteration': ['Exception'], 'ArithmeticError': ['Exception'], 'ZeroDivisionError': ['ArithmeticError'],
     'EOFError': ['Exception'], 'AttributeError': ['Exception'], 'NotImplementedError': ['RuntimeError'],
     'RuntimeError': ['Exception'], 'OSError': ['Exception'], 'IOError': ['Exception'], 'NameError': ['Exception'],
-    'UnicodeDecodeError': ['ValueError'], 'ImportError': ['Exception'],
+    'UnicodeDecodeError': ['ValueError'], 'ImportError': ['Exception'], 'FileNotFoundError': ['OSError'], 'MemoryError': ['Exception'],
+    'OverflowError': ['ArithmeticError'], 'ConfigurationError': ['Exception'],
 }
